@@ -95,3 +95,9 @@ claim("C10",
   "Histories of provision / post / re-post / delete / change-owner / add-remove-reset viewers and editors by owner, editor, viewer and stranger accounts, with string fields taken from existing entries or crafted (separators moved across the address/owner boundary, prefixes, blanks, near-identical ids, non-JSON access lists, short key lists). Authorisation is decided semantically by the model (account hash equality; editor id present in the parent's editor map); an unauthorised message must fail, an authorised one may fail without effect or succeed with exactly the modelled effect; after every step all records and all fields (access lists as parsed maps) must equal the model.",
   "sha256 collisions are not considered; fork mode without ante handler.",
   "DESIGN.md section 4 C10")
+
+claim("C05",
+  "property-based fuzzing of message sequences (rapid state machine; reflection-based generator over all custom message types plus structured storage actions) with recover() around block processing, in fork mode (jklmint + storage BeginBlockers) and through the assembled app's ABCI BeginBlock/EndBlock/Commit with signed transactions",
+  "Sequences of all 45 custom message types with adversarial field values (extreme / zero / negative integers, odd merkles and JSON, hostile price feeds and coins), huge plans, real-merkle files with declared sizes up to MaxInt64, real proofs; block boundaries always run through reward heights, with jumps to file expiries and far-future heights in fork mode. Any panic escaping block processing is a violation (panics inside a transaction are failed transactions). Two chain-halting defects found (FileSize 0 -> division by zero; several huge files -> int64 wrap -> negative coin) are fixed in /repo (44118141, a1d381ca) and replayed on every run.",
+  "Falsification only. Balances <= 1e15 ujkl; module parameters fixed at defaults except windows and collateral price (parameter changes are governance, not user transactions); no wasm contracts are executed.",
+  "DESIGN.md section 4 C05")
